@@ -773,7 +773,8 @@ func (c *Ctx) ruleOutputVerifier(rule string, htlc bool) {
 		}
 		return true
 	}
-	if !htlc {
+	{
+		// (shared by C12.R5 and C13.R2: a SIG_ALL request of HTLC inputs rests on the same agreement of its inputs)
 		perProof := []*Cond{
 			{Name: "input parses as a NUT-10 secret", ForAll: proofs, Match: func(ft *Fact, _ *Origins) bool {
 				return ft.Kind == "errnil" && ft.Pos && isCall(ft.A, fnDeser) && ft.A.Idx == 1 && exprIs(arg(ft.A, 0), "elem("+proofs+").Secret")
